@@ -275,6 +275,7 @@ pub fn prop() -> Prop {
         ],
         post: Some(aggregate),
         watchdog_s: 240,
+        hang_is_violation: false,
         shrink_iters: 40,
     }
 }
